@@ -479,6 +479,84 @@ def part_a_wide(ctx, only=None):
                 wa, wb, type(e_run).__name__, str(e_run)[:200]), {'part': 'a-wide', 'wa': wa, 'wb': wb, 'merge_io_vectors': merge})
 
 
+# ----------------------------------------------------------------------------- (a-shared-select)
+
+def part_shared_select(ctx):
+    """several muxes of DIFFERENT data widths steered by the SAME select wire (select(s, a[:w], b[:w]) for many w, and one
+    conditional_assignment block assigning wires and registers of several widths), in both operand orders: whatever the
+    lowering shares between muxes with one select must not depend on which of them is lowered first.  Oracle: Python."""
+    quick = ctx.tier == 'quick'
+    for k in range(4 if quick else 16):
+        rng = ctx.sub_rng('shared-select', k)
+        merge = k % 2 == 0
+        pyrtl.reset_working_block()
+        W = rng.choice([9, 13, 16])
+        a = pyrtl.Input(W, 'a')
+        b = pyrtl.Input(W, 'b')
+        sels = [pyrtl.Input(1, 's%d' % j) for j in range(2)]
+        widths = sorted(set([1, 2, W] + [rng.randint(2, W) for _ in range(5)]))
+        rng.shuffle(widths)
+        exp = {}
+        for j, sw in enumerate(sels):
+            for w in widths:
+                o = pyrtl.Output(w, 'o%d_%d' % (j, w))
+                o <<= pyrtl.select(sw, a[:w], b[:w])
+                exp[o.name] = (lambda v, j=j, w=w: (v['a'] if v['s%d' % j] else v['b']) & ((1 << w) - 1))
+                o2 = pyrtl.Output(w, 'p%d_%d' % (j, w))
+                o2 <<= pyrtl.select(sw, b[W - w:], a[W - w:])
+                exp[o2.name] = (lambda v, j=j, w=w: ((v['b'] if v['s%d' % j] else v['a']) >> (W - w)) & ((1 << w) - 1))
+        cw = [pyrtl.WireVector(w, 'cw%d' % w) for w in widths[:4]]
+        with pyrtl.conditional_assignment:
+            with sels[0]:
+                for wv in cw:
+                    wv |= a[:len(wv)]
+            with pyrtl.otherwise:
+                for wv in cw:
+                    wv |= b[:len(wv)]
+        for wv in cw:
+            o = pyrtl.Output(len(wv), 'c_%d' % len(wv))
+            o <<= wv
+            exp[o.name] = (lambda v, w=len(wv): (v['a'] if v['s0'] else v['b']) & ((1 << w) - 1))
+        orig = pyrtl.working_block()
+        orig_inputs = [a, b] + sels
+        outs = {w.name: w for w in orig.wirevector_subset(pyrtl.Output)}
+        try:
+            post = pyrtl.synthesize(update_working_block=False, merge_io_vectors=merge, block=orig)
+            sim = pyrtl.Simulation(tracer=None, block=post)
+        except Exception as e:
+            ctx.spec_violation('synthesize:raises', 'synthesize/Simulation raised on the shared-select design %d: %s' % (k, e),
+                               {'part': 'shared-select', 'design': k, 'merge_io_vectors': merge})
+            continue
+        top = (1 << W) - 1
+        vecs = [(top, 0), (0, top), (top, top), (1 << (W - 1), 1), (0x5555 & top, 0xAAAA & top)]
+        vecs += [(rng.getrandbits(W), rng.getrandbits(W)) for _ in range(6)]
+        reported = False
+        for (x, y) in vecs:
+            for sv in range(4):
+                v = {'a': x, 'b': y, 's0': sv & 1, 's1': sv >> 1}
+                try:
+                    sim.step(step_inputs(post, orig_inputs, v, merge))
+                except Exception as e_run:
+                    ctx.spec_violation('synthesize:testbench-raises', 'stepping the synthesized shared-select design %d raised %s: %s'
+                                       % (k, type(e_run).__name__, str(e_run)[:200]), {'part': 'shared-select', 'design': k})
+                    reported = True
+                    break
+                ctx.case(('shared-select', k, x, y, sv), nontrivial=True,
+                         sample={'part': 'shared-select', 'design': k, 'data_widths': widths, 'inputs': v} if (k, sv) == (0, 1) and x == top else None)
+                for nm in sorted(outs):
+                    got = read_output(sim, post, outs[nm], merge)
+                    e_ = exp[nm](v)
+                    if got != e_ and not reported:
+                        reported = True
+                        ctx.spec_violation('synthesize:shared-select', 'synthesized mux %s (one of %d muxes of data widths %s on one select wire) '
+                                           'gives %d, expected %d for %s' % (nm, len(outs), sorted(widths), got, e_, v),
+                                           {'part': 'shared-select', 'design': k, 'output': nm, 'inputs': v, 'expected': e_, 'got': got,
+                                            'merge_io_vectors': merge, 'data_widths': sorted(widths)})
+            if reported:
+                break
+        ctx.count('shared_select_designs', 'muxes=%d' % len(outs))
+
+
 # ----------------------------------------------------------------------------- (a')
 
 def part_a_truncated(ctx):
@@ -1553,6 +1631,7 @@ def run(ctx):
     part_a(ctx)
     t_w = __import__('time').time()
     part_a_wide(ctx)
+    part_shared_select(ctx)
     ctx.notes.append('part_a_wide %.1fs' % (__import__('time').time() - t_w))
     part_a_truncated(ctx)
     part_b(ctx)
@@ -1567,6 +1646,8 @@ def replay(ctx, data):
     part = rep.get('part')
     if part == 'a':
         part_a(ctx, only=(rep['wa'], rep['wb']))
+    elif part == 'shared-select':
+        part_shared_select(ctx)
     elif part == 'a-wide':
         part_a_wide(ctx, only=(rep['wa'], rep['wb']))
     elif part == 'a-truncated':
